@@ -309,6 +309,164 @@ func (c *curve) permZeroAccumulator(honest reflect.Value, t1, t2 []*big.Int) (fo
 	return forged, true
 }
 
+// polyDivXnMinus1 divides p by X^n - 1; ok=false when the remainder is not zero.
+func polyDivXnMinus1(p []*big.Int, n int, q *big.Int) (quo []*big.Int, ok bool) {
+	r := make([]*big.Int, len(p))
+	for i := range p {
+		r[i] = new(big.Int).Set(p[i])
+	}
+	if len(r) > n {
+		quo = make([]*big.Int, len(r)-n)
+	}
+	for i := len(r) - 1; i >= n; i-- {
+		quo[i-n] = new(big.Int).Set(r[i])
+		r[i-n] = addm(r[i-n], r[i], q)
+		r[i] = new(big.Int)
+	}
+	return quo, polyIsZero(r)
+}
+
+// permDegenerateGenerator builds the targeted forgery for a FALSE statement that only the test on the
+// ORDER of proof.g can reject. The proof carries g' = g^(n/m) of order m < n (m = 1: g' = 1; m = 2:
+// g' = -1; m = n/2). With such a g' the recurrence z(g'x)(eps-t2(x)) = z(x)(eps-t1(x)) only links the
+// points of each coset of <g'>: take z = 0 on every coset except <g'> itself, where z(1) = 1 and z
+// follows the recurrence; it closes up as soon as t1 and t2 agree as multisets on the m positions
+// k*n/m - whatever the other n-m entries are. Accumulator, quotient and every KZG opening (the
+// shifted one at g'*eta) are computed honestly for that g' with the verifier's own challenges, and
+// the verifier's identity and both KZG checks are re-checked here before the proof is submitted.
+func (c *curve) permDegenerateGenerator(g *big.Int, t1, t2 []*big.Int, m int) (forged reflect.Value, ok bool) {
+	pk, vk := c.srs()
+	q := c.q
+	n := len(t1)
+	step := n / m
+	gp := expm(g, int64(step), q) // order m
+	digT := c.kzg.Types["Digest"]
+	commit := func(p []*big.Int) (reflect.Value, reflect.Value) {
+		e := c.elems(p)
+		r := c.kzg.F("Commit", e.Interface(), pk)
+		must(reg.Err(r))
+		return e, reflect.ValueOf(r[0])
+	}
+	c1, c2 := interpolate(t1, g, q), interpolate(t2, g, q)
+	e1, d1 := commit(c1)
+	e2, d2 := commit(c2)
+	inf := reflect.Zero(digT)
+	eps, _, _ := c.permChallenges(d1, d2, inf, inf)
+	// accumulator on the coset <g'> only
+	z := make([]*big.Int, n)
+	for i := range z {
+		z[i] = new(big.Int)
+	}
+	cur := big.NewInt(1)
+	for k := 0; k < m; k++ {
+		pos := (k * step) % n
+		if k > 0 {
+			z[pos] = cur
+		} else {
+			z[0] = big.NewInt(1)
+		}
+		den := subm(eps, t2[pos], q)
+		if den.Sign() == 0 {
+			return forged, false
+		}
+		cur = mulm(mulm(cur, subm(eps, t1[pos], q), q), invm(den, q), q)
+	}
+	if cur.Cmp(big.NewInt(1)) != 0 {
+		return forged, false // t1, t2 do not agree on the positions of <g'>: the recurrence does not close up
+	}
+	cz := interpolate(z, g, q)
+	ez, dz := commit(cz)
+	_, omega, _ := c.permChallenges(d1, d2, dz, inf)
+	// numerator (eps-t2) z(g'X) - (eps-t1) z + omega*L0*(z-1), L0 = (X^n-1)/(X-1) = 1+X+...+X^(n-1)
+	l0 := make([]*big.Int, n)
+	for i := range l0 {
+		l0[i] = big.NewInt(1)
+	}
+	zm1 := polySub(cz, []*big.Int{big.NewInt(1)}, q)
+	num := polySub(polyMul(polySub([]*big.Int{eps}, c2, q), polyScaleArg(cz, gp, q), q), polyMul(polySub([]*big.Int{eps}, c1, q), cz, q), q)
+	bnd := polyMul(l0, zm1, q)
+	for i := range bnd {
+		bnd[i] = mulm(bnd[i], omega, q)
+	}
+	num = polySub(num, polySub(nil, bnd, q), q) // num + bnd
+	cq, exact := polyDivXnMinus1(num, n, q)
+	if !exact {
+		return forged, false
+	}
+	for len(cq) < n {
+		cq = append(cq, new(big.Int))
+	}
+	eq, dq := commit(cq)
+	_, _, eta := c.permChallenges(d1, d2, dz, dq)
+	shifted := mulm(eta, gp, q)
+	// the verifier's identity, re-evaluated here from the definitions
+	{
+		one := big.NewInt(1)
+		v1, v2, vz, vq, vzs := polyEval(c1, eta, q), polyEval(c2, eta, q), polyEval(cz, eta, q), polyEval(cq, eta, q), polyEval(cz, shifted, q)
+		xn1 := subm(expm(eta, int64(n), q), one, q)
+		l0e := mulm(xn1, invm(subm(eta, one, q), q), q)
+		lhs := subm(mulm(subm(eps, v2, q), vzs, q), mulm(subm(eps, v1, q), vz, q), q)
+		lhs = addm(lhs, mulm(mulm(subm(vz, one, q), l0e, q), omega, q), q)
+		if lhs.Cmp(mulm(xn1, vq, q)) != 0 {
+			return forged, false
+		}
+	}
+	polys := reflect.MakeSlice(reflect.SliceOf(reflect.SliceOf(c.elT)), 4, 4)
+	digs := reflect.MakeSlice(reflect.SliceOf(digT), 4, 4)
+	for i, pr := range [][2]reflect.Value{{e1, d1}, {e2, d2}, {ez, dz}, {eq, dq}} {
+		polys.Index(i).Set(pr[0])
+		digs.Index(i).Set(pr[1])
+	}
+	rb := c.kzg.F("BatchOpenSinglePoint", polys.Interface(), digs.Interface(), c.elem(eta).Interface(), sha256.New(), pk)
+	ro := c.kzg.F("Open", ez.Interface(), c.elem(shifted).Interface(), pk)
+	if reg.Err(rb) != nil || reg.Err(ro) != nil {
+		return forged, false
+	}
+	bp, sp := ptrOf(rb[0]), ptrOf(ro[0])
+	if reg.Err(c.kzg.F("BatchVerifySinglePoint", digs.Interface(), bp, c.elem(eta).Interface(), sha256.New(), vk)) != nil {
+		return forged, false
+	}
+	if reg.Err(c.kzg.F("Verify", ptrOf(dz.Interface()), sp, c.elem(shifted).Interface(), vk)) != nil {
+		return forged, false
+	}
+	forged = reflect.New(c.perm.Types["Proof"])
+	f := forged.Elem()
+	getField(f, "size").SetInt(int64(n))
+	setField(f, "g", c.elem(gp))
+	setField(f, "t1", d1)
+	setField(f, "t2", d2)
+	setField(f, "z", dz)
+	setField(f, "q", dq)
+	setField(f, "batchedProof", reflect.ValueOf(bp).Elem())
+	setField(f, "shiftedProof", reflect.ValueOf(sp).Elem())
+	return forged, true
+}
+
+// drawDegenerateStatement: t2 agrees with t1 as a multiset on the m positions k*n/m (rotated there when
+// m > 1) and differs from it, as a multiset, elsewhere.
+func drawDegenerateStatement(t *rapid.T, c *curve, t1 []*big.Int, m int) []*big.Int {
+	n := len(t1)
+	step := n / m
+	t2 := append([]*big.Int(nil), t1...)
+	for k := 0; k < m; k++ {
+		t2[(k*step)%n] = t1[(((k+1)%m)*step)%n]
+	}
+	// a position outside <g'>
+	var free []int
+	for i := 0; i < n; i++ {
+		if i%step != 0 {
+			free = append(free, i)
+		}
+	}
+	j := free[rapid.IntRange(0, len(free)-1).Draw(t, "degpos")]
+	for d := int64(1); ; d++ {
+		t2[j] = addm(t1[j], big.NewInt(d), c.q)
+		if !multisetEqual(t1, t2) {
+			return t2
+		}
+	}
+}
+
 func permSizes() []int {
 	if rep.Thorough() {
 		return []int{2, 4, 8, 16, 32, 64, 128}
@@ -378,6 +536,30 @@ func propPermutation(t *rapid.T, c *curve) {
 			} else {
 				rep.Case(test, fs+" z=0", false, "permutation", "transcript_model_unavailable")
 			}
+		}
+	}
+
+	// (3) degenerate generator: a consistent proof for a false statement built around g' of order m < n
+	{
+		ms := []int{1}
+		if n >= 4 {
+			ms = append(ms, 2, n/2)
+		}
+		m := rapid.SampledFrom(ms).Draw(t, "degorder")
+		d2 := drawDegenerateStatement(t, c, t1, m)
+		ds := fmt.Sprintf("permutation-false %s t1=[%s] t2=[%s] g'=g^(n/%d)", c.name, hexs(t1), hexs(d2), m)
+		gTrue := feltBig(acc(a.Elem().FieldByName("g")))
+		if forged, ok := c.permDegenerateGenerator(gTrue, t1, d2, m); ok {
+			o := guard(func() error { return c.permVerify(forged.Elem()) })
+			if o.accepted {
+				accepted(t, "%s: FALSE STATEMENT ACCEPTED: proof built around a generator g' of order %d < n=%d (accumulator supported on <g'>, genuine quotient and openings): the order of proof.g is not enforced (%s)", test, m, n, clip(ds))
+			}
+			if o.panicked != nil {
+				t.Fatalf("%s: verifier panicked: %v", test, o.panicked)
+			}
+			rep.Case(test, ds, true, "permutation", "forgery:degenerate_generator", fmt.Sprintf("forgery:degenerate_generator|order=%s", map[bool]string{true: "1", false: map[bool]string{true: "2", false: "n/2"}[m == 2]}[m == 1]), "forged", "rejected")
+		} else {
+			rep.Case(test, ds, false, "permutation", "forgery:degenerate_generator|construction_unavailable")
 		}
 	}
 
